@@ -4,6 +4,7 @@ import (
 	"encoding/binary"
 	"fmt"
 	"math"
+	"strings"
 
 	"verif/harness/ref"
 )
@@ -11,7 +12,10 @@ import (
 // ---------------------------------------------------------------- nested and spliced records
 
 // rechunk rebuilds the chunk record r with new uncompressed inner records (compression kept, sizes
-// fixed up, CRC zero) and returns the whole file with that chunk replaced.
+// fixed up, CRC zero) and returns the whole file with that chunk replaced. Every file offset the
+// summary and footer hold for positions behind the chunk is shifted by the change in length, and
+// the chunk's own index entry gets the new lengths: the mutant differs from a valid file only by
+// what was put into the chunk, so the index-based readers get as far as the nested records.
 func rechunk(s *c10Seed, r *ref.Rec, inner []byte) []byte {
 	ch := r.Chunk
 	stored, err := ref.Compress(ch.Compression, inner)
@@ -31,7 +35,26 @@ func rechunk(s *c10Seed, r *ref.Rec, inner []byte) []byte {
 	b = append(b, ref.OpChunk)
 	b = binary.LittleEndian.AppendUint64(b, uint64(len(body)))
 	b = append(b, body...)
-	return append(b, s.bytes[r.End():]...)
+	b = append(b, s.bytes[r.End():]...)
+	delta := len(b) - len(s.bytes)
+	for _, f := range sizeFields(s) {
+		if f.off < r.End() || f.w != 8 {
+			continue // fields inside or before the chunk keep their place and value
+		}
+		at := f.off + delta
+		v := binary.LittleEndian.Uint64(b[at:])
+		switch {
+		case f.fileOffset && v >= uint64(r.End()):
+			binary.LittleEndian.PutUint64(b[at:], v+uint64(delta))
+		case f.ofChunkAt == r.Off && f.field == "chunk_length":
+			binary.LittleEndian.PutUint64(b[at:], uint64(9+len(body)))
+		case f.ofChunkAt == r.Off && f.field == "compressed_size":
+			binary.LittleEndian.PutUint64(b[at:], uint64(len(stored)))
+		case f.ofChunkAt == r.Off && f.field == "uncompressed_size":
+			binary.LittleEndian.PutUint64(b[at:], uint64(len(inner)))
+		}
+	}
+	return b
 }
 
 // nested: every top-level record of the file (the chunk itself included: a chunk inside a chunk,
@@ -113,8 +136,11 @@ func (f structFamily) spliced() []func() ([]byte, string) {
 // ---------------------------------------------------------------- depth 2 over the size/offset/count fields
 
 type c10Field struct {
-	off, w int
-	what   string
+	off, w     int
+	what       string
+	field      string
+	fileOffset bool // the value is an absolute file offset
+	ofChunkAt  int  // for fields of a chunk index record: the file offset of the chunk it describes (else -1)
 }
 
 // sizeFields lists the absolute offset of every length, size, offset and count field of every
@@ -129,7 +155,19 @@ func sizeFields(s *c10Seed) []c10Field {
 			o := base + r.Off
 			b := o + 9
 			add := func(off, w int, n string) {
-				out = append(out, c10Field{off, w, fmt.Sprintf("%s.%s of the record at %d%s", ref.OpName(r.Op), n, r.Off, where)})
+				f := c10Field{off: off, w: w, what: fmt.Sprintf("%s.%s of the record at %d%s", ref.OpName(r.Op), n, r.Off, where), field: n, ofChunkAt: -1}
+				switch {
+				case n == "summary_start" || n == "summary_offset_start" || n == "chunk_start_offset" || n == "group_start":
+					f.fileOffset = true
+				case n == "offset" && (r.Op == ref.OpAttachmentIndex || r.Op == ref.OpMetadataIndex):
+					f.fileOffset = true
+				case strings.HasPrefix(n, "message_index_offsets[") && strings.HasSuffix(n, ".offset"):
+					f.fileOffset = true
+				}
+				if r.Op == ref.OpChunkIndex && r.ChunkIndex != nil {
+					f.ofChunkAt = int(r.ChunkIndex.ChunkStart)
+				}
+				out = append(out, f)
 			}
 			add(o+1, 8, "record_length")
 			if r.Err != "" {
